@@ -240,6 +240,14 @@ def main():
     ebody = re.sub(r"\s+", "", em.group(1)) if em else ""
     facts.append("Definition evaluate_selects_result_timeout_abort : bool := %s." %
                  ("true" if (ebody.count("tokio::select!") + ebody.count("select!{") >= 1 and "abort" in ebody and "timeout" in ebody.lower() and "child_result" in ebody) else "false"))
+    # the select of evaluate(), arm by arm: the result as it is; at the limit and on the abort the group is killed and
+    # reaped and the evaluation returns as rejected at once (Cli.pstep: LTimer / LAbort), without waiting for the output
+    facts.append("Definition evaluate_arms_kill_reap_return : bool := %s." % ("true" if (
+        "tokio::select!{result=&mutchild_result=>{returnresult}"
+        "_=&muttimeout_fut=>{kill_and_reap_child_proc_group(unreaped_pgid)?;returnOk(None)}"
+        "_=abort_sig_future=>{kill_and_reap_child_proc_group(unreaped_pgid)?;returnOk(None)}}" in ebody
+        and "letabort_sig_future=abort_sig_rx.recv();" in ebody
+        and "Either::Right(futures::future::pending())" in ebody) else "false"))
     facts.append("Definition stderr_logged_lossily : bool := %s." %
                  ("true" if (re.search(r"from_utf8_lossy", pr) and not re.search(r"String::from_utf8\([^)]*\)\s*\.unwrap\(\)", pr)) else "false"))
 
